@@ -155,6 +155,8 @@ func (r *Reporter) getFileLines(filename string) []string {
 
 	var lines []string
 	scanner := bufio.NewScanner(strings.NewReader(string(content)))
+	// The default token limit (64 KiB) would end the scan at the first longer line
+	scanner.Buffer(nil, len(content)+1)
 	for scanner.Scan() {
 		lines = append(lines, scanner.Text())
 	}
